@@ -21,8 +21,12 @@ TLSCases == {[conns |-> Len(o), msgs |-> 1, faults |-> [i \in 1..Len(o) |-> T(o[
 \* a Server without a Handler of its own (diam.Serve(l, nil)): the DefaultServeMux serves, and reports through diam.ErrorReports()
 DefMuxCases == {[conns |-> 2, msgs |-> 2, faults |-> <<None, [kind |-> kd, pos |-> p]>>, temps |-> <<0, 0, 0>>, sm |-> FALSE, defmux |-> TRUE] :
                   kd \in {"bad", "badbody", "panic", "eof"}, p \in 1..2}
+\* nobody reads the error reports; a handler is still running on connection 1 while connections 2 and 3 send
+\* undecodable input (the second report is dropped by design) and connection 4 sends a request
+UndrainedCases == {[conns |-> 4, msgs |-> 1, faults |-> <<None, [kind |-> "bad", pos |-> 1], [kind |-> "bad", pos |-> 1], None>>,
+                    temps |-> <<0, 0, 0, 0, 0>>, sm |-> FALSE, undrained |-> TRUE]}
 Cases(k, m) == {[conns |-> k, msgs |-> m, faults |-> f, temps |-> t, sm |-> FALSE] : f \in FaultSets(k, m), t \in TempPatterns(k)}
-Init == s \in UNION {Cases(k, m) : k \in 2..MaxConns, m \in 2..MaxMsgs} \cup LongBurst \cup TLSCases \cup DefMuxCases
+Init == s \in UNION {Cases(k, m) : k \in 2..MaxConns, m \in 2..MaxMsgs} \cup LongBurst \cup TLSCases \cup DefMuxCases \cup UndrainedCases
          \cup {[conns |-> 2, msgs |-> 2, faults |-> f, temps |-> <<0, 1, 0>>, sm |-> TRUE] : f \in FaultSets(2, 2)}
 Next == UNCHANGED s
 Emit == PrintT(ToJson(s))
